@@ -375,6 +375,10 @@ func wrap(value string) string {
 }
 
 func canEqual(tt types.Type) bool {
+	if named, isNamed := tt.(*types.Named); isNamed && equalMethodInputParam(named) != nil {
+		// the type has its own notion of equality, also when it is part of a comparable struct or array
+		return false
+	}
 	t := tt.Underlying()
 	switch typ := t.(type) {
 	case *types.Basic:
